@@ -10,6 +10,7 @@ import (
 	"time"
 
 	"verif/harness/adjdrv"
+	"verif/harness/convdrv"
 	"verif/harness/isolate"
 	"verif/harness/muxdrv"
 	"verif/harness/ocidrv"
@@ -184,6 +185,14 @@ func main() {
 			fail(err)
 		}
 		fmt.Printf("{\"events\":%d}\n", n)
+	case "convert":
+		fs := flag.NewFlagSet(mod, flag.ExitOnError)
+		in := fs.String("in", "", "scenarios")
+		out := fs.String("out", "", "trace file")
+		fs.Parse(args)
+		if err := convdrv.Run(*in, *out); err != nil {
+			fail(err)
+		}
 	default:
 		fail(fmt.Errorf("unknown module %q", mod))
 	}
